@@ -57,9 +57,9 @@ impl Vfs {
             Some(path) => path,
             None => {
                 log::warn!("uri {} can not cover to file path", uri.as_str());
-                let id = self.file_data.len() as u32;
-                self.file_data.push(None);
-                return FileId { id };
+                // a document without a file path (e.g. `untitled:`) keeps one id per uri, so that
+                // it can be updated in place and removed again
+                return self.virtual_file_id(uri);
             }
         };
         if let Some(&id) = self.file_id_map.get(&path) {
@@ -85,7 +85,9 @@ impl Vfs {
     }
 
     pub fn get_file_id(&self, uri: &Uri) -> Option<FileId> {
-        let path = uri_to_file_path(uri)?;
+        let Some(path) = uri_to_file_path(uri) else {
+            return self.remote_file_id_map.get(uri).copied();
+        };
         self.file_id_map.get(&path).map(|&id| FileId { id })
     }
 
@@ -152,6 +154,9 @@ impl Vfs {
         let fid = self.get_file_id(uri)?;
         if let Some(path) = self.file_path_map.remove(&fid.id) {
             self.file_id_map.remove(&path);
+        } else {
+            // a document without a file path is addressed by its uri only
+            self.remote_file_id_map.remove(uri);
         }
         if let Some(data) = self.file_data.get_mut(fid.id as usize) {
             data.take();
